@@ -567,7 +567,15 @@ class SymReal(_Num):
         raise Unsupported("float() of a symbolic real (a library boundary was reached)")
 
     def __int__(self):
-        raise Unsupported("int() of a symbolic real via builtin (module not shimmed)")
+        # builtin int() / storing into an integer ndarray: truncation toward zero, concretised by forking over the
+        # feasible values (exact; only reached where a module's `int` is not shimmed or numpy converts itself)
+        c = ctx()
+        n = getattr(c, "_int_forks", 0) + 1
+        c._int_forks = n
+        if n > 256:
+            raise Unsupported("int() of a symbolic real via builtin: more than 256 conversions on one path")
+        t = self.t
+        return c.concretize_int(z3.If(t >= 0, z3.ToInt(t), -z3.ToInt(-t)))
 
     def __round__(self, n=None):
         raise Unsupported("round() of a symbolic real")
